@@ -35,6 +35,10 @@ type Constant struct {
 	Doc   string
 	Type  TypeSpec
 	Value ConstantValue
+
+	// linking is true while Link is resolving this constant; reaching the
+	// constant again during that time means it is defined in terms of itself.
+	linking bool
 }
 
 // compileConstant builds a Constant from the given AST constant.
@@ -56,8 +60,13 @@ func compileConstant(file string, src *ast.Constant) (*Constant, error) {
 // Link resolves any references made by the constant.
 func (c *Constant) Link(scope Scope) (err error) {
 	if c.linked() {
+		if c.linking {
+			return referenceCycleError{Kind: "constant", Name: c.Name}
+		}
 		return nil
 	}
+	c.linking = true
+	defer func() { c.linking = false }()
 
 	if c.Type, err = c.Type.Link(scope); err != nil {
 		return compileError{Target: c.Name, Reason: err}
